@@ -54,7 +54,9 @@ type VarsCase struct {
 	Flags []string `json:"flags,omitempty"`
 }
 
-var varNames = []string{"AMB_A", "HOME", "LANG", "DOT_B", "BOTH_C", "PLAIN_D", "other", "Mixed_e"}
+var varNames = []string{"AMB_A", "HOME", "LANG", "DOT_B", "BOTH_C", "PLAIN_D", "other", "Mixed_e",
+	// names a Go value may also have as a method or field (Env, String, Error, Len): still just names
+	"Env", "String", "Error", "Len"}
 
 var valueRunes = []rune("abcXYZ019   $${}{{}}#\\/.,;:!?()[]<>|&*~^%@+=-_`")
 
@@ -68,6 +70,11 @@ var execChoices = []execChoice{
 	{`printf ''`, ""},
 	{`echo hello world`, "hello world"},
 	{`printf 'in  ner'`, "in  ner"},
+	// line ends of the other kind inside the value (a tool that prints CR LF): only what surrounds the
+	// value is trimmed. (A CR LF pair inside a quoted word of a command line is read as LF by the
+	// shell itself, so for such a value the template side is judged by the command text only.)
+	{`printf 'a\r\nb'`, "a\r\nb"},
+	{`printf 'one\r\ntwo\r\n'`, "one\r\ntwo"},
 }
 
 var joinSegs = []string{".", "..", "", "a/b/", "dist", "/abs/root", "x", "./y//z", "../up", "out dir", "out", "dir", "a b", "a", "b", "link", "sub", "real", "link/sub"}
@@ -94,7 +101,8 @@ func genVarsBody(t *rapid.T) VarsCase {
 		case 0:
 			v.Kind = "exec"
 			if rapid.IntRange(0, 7).Draw(t, "execfail") == 0 {
-				v.Text, v.Fail = "exit 3", true
+				// exits non-zero, or cannot be started at all (neither script nor binary; no such interpreter)
+				v.Text, v.Fail = rapid.SampledFrom([]string{"exit 3", "exit 3", "@TOOLS@/garbage", "@TOOLS@/badinterp", "no-such-program-anywhere"}).Draw(t, "failing_exec"), true
 			} else {
 				ch := rapid.SampledFrom(execChoices).Draw(t, "exec")
 				v.Text, v.Want = ch.arg, ch.want
@@ -205,6 +213,13 @@ func execVars(s *ev.Shard, b *sandbox.Box, c VarsCase) *rp.Fail {
 	}
 	b.FileOutputs = c.Outputs == "files"
 	src, _ := c.source()
+	tools := filepath.Join(b.Home, "tools")
+	src = strings.ReplaceAll(src, "@TOOLS@", tools)
+	if err := writeProject(b, b.Home, map[string]string{"tools/garbage": "\x01\x02 neither a script nor a binary\n", "tools/badinterp": "#!/no/such/interpreter\necho hi\n"}); err != nil {
+		return &rp.Fail{Sig: "harness", Msg: err.Error()}
+	}
+	_ = os.Chmod(filepath.Join(tools, "garbage"), 0o755)
+	_ = os.Chmod(filepath.Join(tools, "badinterp"), 0o755)
 	files := map[string]string{"spokfile": src, "nested/dir/": "", "real/sub/": "", "out/dir/": "", "gate.txt": "gate"}
 	if len(c.DotEnv) > 0 {
 		var keys []string
@@ -327,7 +342,7 @@ func execVars(s *ev.Shard, b *sandbox.Box, c VarsCase) *rp.Fail {
 		}
 		for i, v := range c.Vars[:c.Split] {
 			w := want[v.Name]
-			if ec[2*i].Cmd != "printf '%s' '"+w+"'" || ec[2*i].Stdout != w {
+			if ec[2*i].Cmd != "printf '%s' '"+w+"'" || (ec[2*i].Stdout != w && !strings.Contains(w, "\r\n")) {
 				return &rp.Fail{Sig: "template-substitution", Size: size, Msg: fmt.Sprintf("%s: in task early (defined after %d variables) {{.%s}} should give %q; spok ran %q printing %q", desc, c.Split, v.Name, w, ec[2*i].Cmd, ec[2*i].Stdout)}
 			}
 			if ec[2*i+1].Stdout != w {
@@ -350,7 +365,7 @@ func execVars(s *ev.Shard, b *sandbox.Box, c VarsCase) *rp.Fail {
 		if wantCmd := "printf '%s' '" + w + "'"; tmpl.Cmd != wantCmd {
 			return &rp.Fail{Sig: "template-substitution", Size: size, Msg: fmt.Sprintf("%s: {{.%s}} should be replaced by %q giving command %q, spok ran %q", desc, v.Name, w, wantCmd, tmpl.Cmd)}
 		}
-		if tmpl.Stdout != w {
+		if tmpl.Stdout != w && !strings.Contains(w, "\r\n") {
 			return &rp.Fail{Sig: "template-value-at-shell", Size: size, Msg: fmt.Sprintf("%s: printf '%%s' '{{.%s}}' printed %q, want %q", desc, v.Name, tmpl.Stdout, w)}
 		}
 		if wantCmd := fmt.Sprintf("printf '%%s' \"$%s\"", v.Name); envc.Cmd != wantCmd {
